@@ -60,6 +60,9 @@ type C04 struct {
 	userTx        map[string]string // chain/id -> tx hash of the user's MsgSendToExternal
 	pendingCancel map[string]bool
 	pendingBatch  *mhub2types.BatchTx
+	execEvent     map[string]uint64 // chain/batch key -> nonce of the external event that reports its execution
+	minterExecs   []string          // batch keys in the order the Minter multisig executed them
+	minterSeen    int               // how many of them have been matched with their event
 }
 
 func (*C04) Property() string { return "C04" }
@@ -78,6 +81,17 @@ func (o *C04) OnExtCall(w *World, c *ExtCall) {
 		if b != nil {
 			for _, tx := range b.Transactions {
 				o.extDone[c.Chain+"/"+strconv.FormatUint(tx.Id, 10)] = bkey(b.ExternalTokenId, b.BatchNonce)
+			}
+			if o.execEvent == nil {
+				o.execEvent = map[string]uint64{}
+			}
+			if c.Chain == "minter" {
+				// the multisig executes one transaction after the other: the n-th executed batch is the n-th batch event,
+				// whose nonce is known once the Minter chain has put it into a block
+				o.minterExecs = append(o.minterExecs, bkey(b.ExternalTokenId, b.BatchNonce))
+			} else {
+				// the execution is the event the contract has just emitted
+				o.execEvent[c.Chain+"/"+bkey(b.ExternalTokenId, b.BatchNonce)] = w.lastExtNonce(c.Chain)
 			}
 		}
 	}
@@ -137,6 +151,40 @@ func (o *C04) place(w *World, s *Snap, at string) bool {
 			for _, bk := range s.InBatch[ch][id] {
 				if bk != o.extDone[k] {
 					w.Fail("C04", "one-place", "executed-and-rebatched", fmt.Sprintf("%s: transfer %d was paid out by the external chain (batch %s) and is pending in batch %s (at %s)", ch, id, o.extDone[k], bk, at))
+					return false
+				}
+			}
+		}
+		// once the hub has worked through the external chain's events up to the one that reports an execution, the
+		// executed batch is no longer pending
+		if ch == "minter" && o.minterSeen < len(o.minterExecs) {
+			i := 0
+			for _, ev := range w.MinterEvents() {
+				if ev.Kind != ext.MBatch {
+					continue
+				}
+				if i >= o.minterSeen && i < len(o.minterExecs) {
+					if o.execEvent == nil {
+						o.execEvent = map[string]uint64{}
+					}
+					o.execEvent["minter/"+o.minterExecs[i]] = ev.EventNonce
+					o.minterSeen = i + 1
+				}
+				i++
+			}
+		}
+		if !w.Tainted {
+			for _, k := range sortedKeys(o.execEvent) {
+				if !strings.HasPrefix(k, ch+"/") {
+					continue
+				}
+				bk := k[len(ch)+1:]
+				if _, pending := s.Batches[ch][bk]; !pending {
+					delete(o.execEvent, k)
+					continue
+				}
+				if s.LastObs[ch] >= o.execEvent[k] && s.At == "C" {
+					w.Fail("C04", "one-place", "executed-still-pending", fmt.Sprintf("%s: batch %s was executed by the external chain (its event %d); the hub has applied that chain's events up to %d and still holds the batch as pending", ch, bk, o.execEvent[k], s.LastObs[ch]))
 					return false
 				}
 			}
